@@ -51,7 +51,8 @@ def en_token(word, i=0, rich=True):
 def ja_token(word, i=0):
     if word == 'same':
         i = 0
-    return Token(word=word, surf=word, base=word, pos=['名詞', '動詞'][i % 2], pos1=['一般', '*'][i % 2], pos2='*', pos3='*',
+    base = word if i % 2 == 0 else word + '\u308b'       # an inflected word: its dictionary form differs from the surface form
+    return Token(word=word, surf=word, base=base, pos=['名詞', '動詞'][i % 2], pos1=['一般', '*'][i % 2], pos2='*', pos3='*',
                  inflectionForm=['*', '基本形'][i % 2], inflectionType='*', reading='*')
 
 
